@@ -337,6 +337,8 @@ impl<T, A: Ord + Clone> CmRDT for List<T, A> {
     open spec fn cm_pre(&self, op: &Op<T, A>) -> bool { op is Insert ==> op->Insert_id@.len() > 0 }
     open spec fn cm_post(old_: &Self, op: &Op<T, A>, new_: &Self) -> bool { apply_post_list(*old_, *op, *new_) }
     open spec fn cm_vpre(&self, op: &Op<T, A>) -> bool { op is Insert ==> op->Insert_id@.len() > 0 }
+    open spec fn cm_vhyp() -> bool { true }
+    open spec fn cm_vflag(&self, op: &Op<T, A>) -> bool { op.dot_spec().counter > cnt(self.cl(), op.dot_spec().actor) + 1 }
 
 //@extract fn src/list.rs "CmRDT for List" validate_op
     fn validate_op(&self, op: &Self::Op) -> /*@ (r: @*/ Result<(), Self::Validation> /*@ ) @*/
